@@ -868,8 +868,25 @@ def r1110(ctx, R):
     R.count('R11.10', n, 1)
 
 
+def r1111(ctx, R):
+    """A write that is refused changes nothing a read reports: the consumer
+    attributes (project, user, type), the allocations and the generations
+    of one allocation write are stored by one transaction, so a rejection of
+    the allocations takes the attribute change with it (the
+    one-core-transaction obligations of R4.2, read for the allocation
+    writers)."""
+    from psa.rules import c04
+    n = C.reuse_obligations(
+        ctx, R, lambda c, r: c04.check_roots(c, r, 'R4'), 'R11.11',
+        select=lambda o: o.construct.endswith(':one-core-transaction') and (
+            'handlers.allocation:' in o.construct or
+            'handlers.reshaper:' in o.construct))
+    R.count('R11.11', n, 6)
+
+
 def run(ctx, R):
     r1110(ctx, R)
+    r1111(ctx, R)
     r111(ctx, R)
     r112(ctx, R)
     r113(ctx, R)
